@@ -85,6 +85,7 @@ EVENTS["blk_dl_init"] = bytes([0xC6]) + mux(0x2007) + struct.pack("<L", 9)
 EVENTS["blk_dl_init_other"] = bytes([0xC6]) + mux(0x2002) + struct.pack("<L", 9)      # another object than a running download's
 EVENTS["abort"] = bytes([0x80]) + mux(0x2000) + struct.pack("<L", 0x08000000)
 EVENTS["ccs7"] = bytes([0xE0]) + bytes(7)
+EVENTS["short0"] = b""                          # a request without any data byte
 EVENTS["short1_ul"] = bytes([0x40])
 EVENTS["short3_dl"] = bytes([0x23, 0x00, 0x20])
 EVENTS["short1_ulseg"] = bytes([0x60])
